@@ -69,6 +69,16 @@ Proof.
   apply Rmult_lt_compat_l; [exact HK|]. apply pypow_lt; [apply Rdiv_lt_0_compat; lra | exact Hp | exact Hpq].
 Qed.
 
+Lemma Freundlich_monotone K m p q : Freundlich_bounds K m -> 0 < m -> 0 <= p -> p <= q ->
+  Freundlich_loading K m p <= Freundlich_loading K m q.
+Proof.
+  intros HB Hm Hp Hpq. assert (HK : 0 <= K) by (unfold Freundlich_bounds in HB; tauto).
+  destruct (Req_dec p q) as [->|Hne]; [apply Rle_refl|].
+  destruct (Req_dec K 0) as [->|HK0].
+  { unfold Freundlich_loading. rewrite !Rmult_0_l. apply Rle_refl. }
+  left. apply Freundlich_strictly_monotone; lra.
+Qed.
+
 (* ---------------- C11 *)
 Lemma Freundlich_gibbs K m p : m <> 0 -> 0 < p ->
   Freundlich_spreading_pressure_def K m p /\
